@@ -165,8 +165,13 @@ func (k Keeper) AllocateSellingCoin(ctx context.Context, auction types.AuctionI,
 		ioCoins[bidder] = inout
 	}
 
-	// Send all inputs
-	for _, inout := range ioCoins {
+	// Send all inputs in the sorted order of the bidders: ranging over the map would make the
+	// order of the transfers and of their events depend on Go's randomized map iteration
+	for _, bidder := range bidders {
+		inout, ok := ioCoins[bidder]
+		if !ok {
+			continue
+		}
 		if err := k.bankKeeper.InputOutputCoins(ctx, inout.input, inout.outputs); err != nil {
 			return err
 		}
@@ -271,8 +276,13 @@ func (k Keeper) RefundPayingCoin(ctx context.Context, auction types.AuctionI, mI
 		ioCoins[bidder] = inout
 	}
 
-	// Send all inputs.
-	for _, inout := range ioCoins {
+	// Send all inputs in the sorted order of the bidders: ranging over the map would make the
+	// order of the transfers and of their events depend on Go's randomized map iteration
+	for _, bidder := range bidders {
+		inout, ok := ioCoins[bidder]
+		if !ok {
+			continue
+		}
 		if err := k.bankKeeper.InputOutputCoins(ctx, inout.input, inout.outputs); err != nil {
 			return err
 		}
